@@ -11,6 +11,7 @@ import (
 	"fmt"
 	"io"
 	"os"
+	"os/signal"
 	"strings"
 	"syscall"
 	"testing"
@@ -43,12 +44,19 @@ type c13Case struct {
 	Mounts   []string // tmpfs targets
 	Cred     bool
 	Programs []c13Program
+	// the container also has a read-only bind /data with a masked directory /data/private (and /usr/share masked);
+	// every program additionally tries to create entries in every directory it can name (root, binds, masked
+	// directories): wherever that succeeds is a writable mount, and Reset has to empty it
+	Masks bool `json:",omitempty"`
 }
+
+// directories every program sprays (besides the tmpfs mounts)
+var c13SprayDirs = []string{"/", "/usr", "/usr/share", "/data", "/data/private", "/data/private/sub"}
 
 var c13Kinds = []string{"file", "dir", "dir000", "dotfile", "weirdname", "symlink-dangling", "symlink-root", "fifo", "socket", "hardlink", "deep", "many", "heldopen", "nested-dirs"}
 
 func c13GenCase(rt *rapid.T) c13Case {
-	c := c13Case{Cred: rapid.Bool().Draw(rt, "cred")}
+	c := c13Case{Cred: rapid.Bool().Draw(rt, "cred"), Masks: rapid.IntRange(0, 2).Draw(rt, "masks") == 0}
 	all := []string{"w", "tmp", "scratch/inner"}
 	nm := rapid.IntRange(1, 3).Draw(rt, "nmounts")
 	c.Mounts = all[:nm]
@@ -151,6 +159,13 @@ func c13Script(c c13Case, pi int) *probe.Script {
 			}
 		}
 	}
+	if c.Masks {
+		for _, d := range c13SprayDirs {
+			s.Sys(sysNr["openat"], at, s.Str(fmt.Sprintf("%s/spray_f%d", d, pi)), syscall.O_CREAT|syscall.O_WRONLY, 0o644)
+			s.Sys(sysNr["mkdirat"], at, s.Str(fmt.Sprintf("%s/spray_d%d", d, pi)), 0o755)
+			s.Sys(sysNr["symlinkat"], s.Str("/"), at, s.Str(fmt.Sprintf("%s/spray_l%d", d, pi)))
+		}
+	}
 	if prog.How == "after-exec-syncfail" || prog.How == "cancelled" {
 		// tell the host that everything is in place, then stay around to be stopped
 		s.Sys(sysNr["chdir"], s.Str("/"+c.Mounts[0]))
@@ -167,7 +182,23 @@ func c13Run(c c13Case, rec *vh.Recorder) error {
 		mb.WithTmpfs(t, "")
 	}
 	mb.WithBind("/usr", "usr", true)
+	var dataDir string
+	if c.Masks {
+		var err error
+		if dataDir, err = vh.ScratchDir("c13data"); err != nil {
+			return vh.Infraf("scratch: %v", err)
+		}
+		defer os.RemoveAll(dataDir)
+		os.Chmod(dataDir, 0o755)
+		os.MkdirAll(dataDir+"/private/sub", 0o755)
+		os.WriteFile(dataDir+"/private/secret", []byte("masked"), 0o644)
+		os.WriteFile(dataDir+"/public", []byte("public"), 0o644)
+		mb.WithBind(dataDir, "data", true)
+	}
 	b := &container.Builder{Mounts: mb.Mounts, WorkDir: "/" + c.Mounts[0]}
+	if c.Masks {
+		b.MaskPaths = []string{"/data/private", "/usr/share", "/nonexistent-mask"}
+	}
 	if c.Cred {
 		b.CredGenerator = c13Cred{}
 	}
@@ -264,10 +295,31 @@ func c13Run(c c13Case, rec *vh.Recorder) error {
 			return vh.Violf("C13:residue-after-reset", "Reset returned nil but /%s still contains %v; %s", t, names, desc)
 		}
 	}
+	if c.Masks {
+		for _, d := range c13SprayDirs {
+			ents, _ := os.ReadDir(fmt.Sprintf("/proc/%d/root%s", initPid, d))
+			for _, e := range ents {
+				if strings.HasPrefix(e.Name(), "spray_") {
+					return vh.Violf("C13:residue-after-reset", "Reset returned nil but %s (not a declared tmpfs, yet writable for the program) still contains %q; %s", d, e.Name(), desc)
+				}
+			}
+		}
+		for _, n := range []string{"public", "private/secret"} {
+			if _, err := os.Lstat(dataDir + "/" + n); err != nil {
+				return vh.Infraf("bind source lost %s: %v", n, err)
+			}
+		}
+	}
 	// a later program's view
 	var ls probe.Script
 	for _, t := range c.Mounts {
 		ls.Add("walk:" + ls.Str("/"+t) + ":3")
+	}
+	var sprayWalks []int
+	if c.Masks {
+		for _, d := range c13SprayDirs {
+			sprayWalks = append(sprayWalks, ls.Add("walk:"+ls.Str(d)+":1"))
+		}
 	}
 	ls.Add("exit:0")
 	tr, err := runContainer(sandboxOpts{Script: &ls, Env: env})
@@ -279,10 +331,26 @@ func c13Run(c c13Case, rec *vh.Recorder) error {
 		return vh.Violf("C13:env-unusable-after-reset", "lister program: hung=%v %v %q; %s", tr.Hung, tr.Result.Status, tr.Result.Error, desc)
 	}
 	for _, w := range tr.Report.Walk {
+		if c.Masks {
+			// walks of the sprayed directories list what legitimately lives there; only sprayed names are residue
+			under := false
+			for _, t := range c.Mounts {
+				if strings.HasPrefix(w.Path, "/"+t+"/") {
+					under = true
+				}
+			}
+			if !under {
+				if i := strings.LastIndex(w.Path, "/"); i >= 0 && strings.HasPrefix(w.Path[i+1:], "spray_") && w.Err == 0 {
+					return vh.Violf("C13:residue-after-reset", "a later program sees %q after Reset; %s", w.Path, desc)
+				}
+				continue
+			}
+		}
 		if w.Err == 0 {
 			return vh.Violf("C13:residue-after-reset", "a later program sees %q after Reset; %s", w.Path, desc)
 		}
 	}
+	_ = sprayWalks
 	nt := false
 	var classes []string
 	for _, p := range c.Programs {
@@ -304,6 +372,9 @@ func c13Run(c c13Case, rec *vh.Recorder) error {
 		}
 	}
 	classes = append(classes, fmt.Sprintf("cred=%v mounts=%d", c.Cred, len(c.Mounts)))
+	if c.Masks {
+		classes = append(classes, "masked-directories+spray")
+	}
 	if before == 0 {
 		nt = false
 		classes = append(classes, "nothing-created")
@@ -326,7 +397,7 @@ func firstWords(s string, n int) string {
 
 func TestC13Reset(t *testing.T) {
 	rec := vh.NewRecorder(t, "C13", "exploration",
-		"reset part: container with 1..3 tmpfs mounts (one nested) and a read-only bind, with/without a credential generator; 1..3 programs each create up to 6 entry groups per mount: files, directories, mode-000 directories with content, dot-names, names with spaces/newlines/glob characters/leading dash, dangling symlinks and symlinks to / /usr .., FIFOs, sockets, hard links across directories, 5/25/60-deep chains of 80-character names (> PATH_MAX), 10/300/2000 files in one directory, files held open by a daemon; then Reset; oracle: if Reset returns nil every tmpfs is empty seen from the host (/proc/<init>/root) and from a later program; non-trivial = a mode-000 directory, depth > 20, > 500 entries or a special file")
+		"reset part: container with 1..3 tmpfs mounts (one nested) and a read-only bind, with/without a credential generator; 1..3 programs each create up to 6 entry groups per mount: files, directories, mode-000 directories with content, dot-names, names with spaces/newlines/glob characters/leading dash, dangling symlinks and symlinks to / /usr .., FIFOs, sockets, hard links across directories, 5/25/60-deep chains of 80-character names (> PATH_MAX), 10/300/2000 files in one directory, files held open by a daemon; one case in three also has a read-only bind with a masked directory and every program tries to create entries in every directory it can name (root, binds, masked directories); then Reset; oracle: if Reset returns nil every tmpfs is empty seen from the host (/proc/<init>/root) and from a later program; non-trivial = a mode-000 directory, depth > 20, > 500 entries or a special file")
 	vh.Check(t, rec, c13GenCase, func(c c13Case) error { return c13Run(c, rec) })
 }
 
@@ -338,6 +409,9 @@ type c13MCase struct {
 	FailAt int
 	Name   string
 	Exec   bool // content is the probe binary; a sandboxed program is run from the memfd and attacks it
+	// bytes already read from the reader before it is handed over (a caller that sniffed a header): the supplied bytes
+	// are what the reader still yields
+	Consumed int `json:",omitempty"`
 }
 
 type oneByteReader struct{ r io.Reader }
@@ -479,15 +553,22 @@ func c13CheckSealed(f *os.File, want []byte, when string) error {
 
 func TestC13Memfd(t *testing.T) {
 	rec := vh.NewRecorder(t, "C13", "exploration",
-		"memfd part: DupToMemfd(name, reader) for sizes 0, 1, 4095, 4096, 4097, 65535..65537, up to 8 MiB, from bytes.Reader, *os.File, a pipe, a one-byte-at-a-time reader and a reader failing after k bytes; content equals the supplied bytes, offset 0, all four seals set, write/append/truncate/fallocate/punch-hole/shared writable mmap/reopen-for-write all fail - before and after a sandboxed program was run from the descriptor (ExecFile) and tried the same on /proc/self/exe and on the inherited descriptor; a failing reader yields an error and no descriptor leak; non-trivial = size > one page and not a multiple of the page size")
+		"memfd part: DupToMemfd(name, reader) for sizes 0, 1, 4095, 4096, 4097, 65535..65537, up to 8 MiB, from bytes.Reader, *os.File, a pipe, a one-byte-at-a-time reader, data+EOF / stuttering / limited / section readers, strings.Reader and a reader failing after k bytes, one sized reader in three already partly consumed when handed over (the supplied bytes are what it still yields); content equals the supplied bytes, offset 0, all four seals set, write/append/truncate/fallocate/punch-hole/shared writable mmap/reopen-for-write all fail - before and after a sandboxed program was run from the descriptor (ExecFile) and tried the same on /proc/self/exe and on the inherited descriptor; a failing reader yields an error and no descriptor leak; non-trivial = size > one page and not a multiple of the page size")
 	probeBytes, err := os.ReadFile(probe.Path())
 	if err != nil {
 		t.Fatalf("INFRA: %v", err)
 	}
+	// no case needs a file beyond 8 MiB: a mistaken allocation (e.g. from a reader's nominal Size()) must fail with
+	// EFBIG here instead of filling the machine's memory with shmem pages
+	signal.Ignore(syscall.SIGXFSZ)
+	lim := syscall.Rlimit{Cur: 256 << 20, Max: 256 << 20}
+	if err := syscall.Setrlimit(syscall.RLIMIT_FSIZE, &lim); err != nil {
+		t.Fatalf("INFRA: setrlimit: %v", err)
+	}
 	ce := &c09Env{}
 	defer ce.close()
 	vh.Check(t, rec, func(rt *rapid.T) c13MCase {
-		c := c13MCase{Reader: rapid.SampledFrom([]string{"bytes", "file", "pipe", "onebyte", "failing", "data+eof", "data+eof-chunked", "section", "stutter", "buffer", "limited-file"}).Draw(rt, "reader")}
+		c := c13MCase{Reader: rapid.SampledFrom([]string{"bytes", "file", "pipe", "onebyte", "failing", "data+eof", "data+eof-chunked", "section", "stutter", "buffer", "limited-file", "strings", "section-bounded", "bytes", "section-bounded"}).Draw(rt, "reader")}
 		c.Size = rapid.OneOf(rapid.SampledFrom([]int{0, 1, 4095, 4096, 4097, 8191, 8192, 8193, 65535, 65536, 65537}), rapid.IntRange(0, 20000), rapid.IntRange(0, 1<<20), rapid.SampledFrom([]int{4 << 20, 8<<20 + 3})).Draw(rt, "size")
 		if (c.Reader == "onebyte" || c.Reader == "stutter") && c.Size > 70000 {
 			c.Size = c.Size % 70000
@@ -497,11 +578,24 @@ func TestC13Memfd(t *testing.T) {
 		}
 		c.Name = rapid.SampledFrom([]string{"prog", "", "a b", "x/y", strings.Repeat("n", 200)}).Draw(rt, "name")
 		c.Exec = rapid.IntRange(0, 7).Draw(rt, "exec") == 0
+		switch c.Reader {
+		case "bytes", "strings", "section", "section-bounded", "file", "buffer", "pipe":
+			if !c.Exec && rapid.IntRange(0, 2).Draw(rt, "preconsumed") == 0 {
+				c.Consumed = rapid.OneOf(rapid.SampledFrom([]int{1, 2, 4, c.Size / 2, c.Size - 1, c.Size}), rapid.IntRange(0, c.Size)).Draw(rt, "consumed")
+				if c.Consumed < 0 {
+					c.Consumed = 0
+				}
+				if c.Consumed > c.Size {
+					c.Consumed = c.Size
+				}
+			}
+		}
 		return c
 	}, func(c c13MCase) error {
 		want := c13Content(c.Size)
 		if c.Exec {
 			want = probeBytes
+			c.Consumed = 0
 		}
 		base := fdCount()
 		var r io.Reader
@@ -520,6 +614,10 @@ func TestC13Memfd(t *testing.T) {
 			r = &dataEOFReader{b: want}
 		case "data+eof-chunked":
 			r = &dataEOFReader{b: want, chunk: 1 + c.Size%5000}
+		case "strings":
+			r = strings.NewReader(string(want))
+		case "section-bounded":
+			r = io.NewSectionReader(bytes.NewReader(want), 0, int64(len(want)))
 		case "section":
 			r = io.NewSectionReader(bytes.NewReader(want), 0, 1<<62)
 		case "stutter":
@@ -557,6 +655,12 @@ func TestC13Memfd(t *testing.T) {
 			go func() { pw.Write(want); pw.Close() }()
 			cleanup = append(cleanup, func() { pr.Close() })
 			r = pr
+		}
+		if c.Consumed > 0 {
+			if n, err := io.ReadFull(r, make([]byte, c.Consumed)); err != nil || n != c.Consumed {
+				return vh.Infraf("pre-consuming %d bytes of a %s reader: %d %v", c.Consumed, c.Reader, n, err)
+			}
+			want = want[c.Consumed:]
 		}
 		f, err := memfd.DupToMemfd(c.Name, r)
 		if c.Reader == "failing" {
@@ -641,7 +745,12 @@ func TestC13Memfd(t *testing.T) {
 			}
 		}
 		nt := len(want) > 4096 && len(want)%4096 != 0
-		rec.Case(c, nt, "reader="+c.Reader, fmt.Sprintf("exec=%v", c.Exec))
+		mclasses := []string{"reader=" + c.Reader, fmt.Sprintf("exec=%v", c.Exec)}
+		if c.Consumed > 0 {
+			mclasses = append(mclasses, "reader-partly-consumed:"+c.Reader)
+			nt = true
+		}
+		rec.Case(c, nt, mclasses...)
 		if nt && rec.WantSample() {
 			rec.Sample(c)
 		}
